@@ -3,6 +3,7 @@ package props
 import (
 	"bytes"
 	"context"
+	"errors"
 	"fmt"
 	"math/rand"
 	"runtime"
@@ -53,7 +54,10 @@ func c07Install(e types.EnvType, st *c07State) {
 		g := goid()
 		if st.cancelled.Load() {
 			if g == st.mainG {
-				atomic.AddInt64(&st.lateMain, 1)
+				if atomic.AddInt64(&st.lateMain, 1) > 50 {
+					// already a violation: make the runaway evaluation end instead of burning the time budget
+					return nil, errors.New("verif: evaluation still running after its context was cancelled")
+				}
 			} else {
 				atomic.AddInt64(&st.lateOther, 1)
 			}
@@ -162,7 +166,7 @@ func c07Wrap(r *rand.Rand, inner string, depth int, loops []c07Loop) (src string
 	return s2, d + ">" + d2
 }
 
-func c07RunCancel(c *fw.Ctx, id string, prog, after, desc string, k int64) {
+func c07RunCancel(c *fw.Ctx, id string, prog, after, desc string, k int64, farDeadline bool) {
 	c.Case(id, fmt.Sprintf("cancel at tick %d, node after tick %s: %s", k, after, prog), func() {
 		env := hx.NewStdEnv()
 		st := &c07State{cancelAt: k}
@@ -175,6 +179,13 @@ func c07RunCancel(c *fw.Ctx, id string, prog, after, desc string, k int64) {
 			panic(err)
 		}
 		ctx, cancel := context.WithCancel(context.Background())
+		if farDeadline {
+			// a context that also carries a (far) deadline and is cancelled explicitly long before it
+			var c2 context.CancelFunc
+			ctx, c2 = context.WithTimeout(ctx, 100*time.Second)
+			defer c2()
+			c.Count("cancel_mode_with_far_deadline", 1)
+		}
 		st.cancel = cancel
 		defer cancel()
 		var o hx.Outcome
@@ -369,7 +380,7 @@ func runC07(c *fw.Ctx) {
 				k = 1
 			}
 			if c.Mine(idx) {
-				c07RunCancel(c, fmt.Sprintf("cancel-%s-%d", l.name, ai), l.src, after, "none", k)
+				c07RunCancel(c, fmt.Sprintf("cancel-%s-%d", l.name, ai), l.src, after, "none", k, (idx+ai)%2 == 1)
 				c.Count("loop."+l.name, 1)
 				c.Distinct("shapes", l.name+"|"+after)
 			}
@@ -385,7 +396,7 @@ func runC07(c *fw.Ctx) {
 		if l.blocking {
 			k = 1
 		}
-		c07RunCancel(c, fmt.Sprintf("wrapped-%d", i), prog, after, desc, k)
+		c07RunCancel(c, fmt.Sprintf("wrapped-%d", i), prog, after, desc, k, i%2 == 1)
 		c.Count("loop."+l.name, 1)
 		c.Count("wrapper."+desc0(desc), 1)
 		c.Distinct("shapes", l.name+"|"+desc)
